@@ -39,6 +39,15 @@ func VH_C08_fault() {
 		// oversize: the reply is followed by more bytes than any frame can hold; the first read already fills the
 		// client's buffer (the prefix is the part of it that is the reply)
 		prefix = 0
+		// either the smallest oversize reply (one byte more than a frame of this framing can hold: 260 TCP, 256 RTU)
+		// or one that fills the client's buffer
+		if vndBool("justOverTheLimit") {
+			if x.tcp {
+				s.oversizeN = 261
+			} else {
+				s.oversizeN = 257
+			}
+		}
 	} else if fault != vhFaultWrite && fault != vhFaultWriteDl {
 		set := vhCutSet(limit, E)
 		prefix = set[vndChoice("prefix", len(set))]
